@@ -675,6 +675,23 @@ def concretize_int(x):
             raise Inconclusive('unbounded integer concretisation')
 
 
+def concretize_fpint(x):
+    """Fork over the feasible values of an integral binary64 value (bounded by the path condition)."""
+    tries = 0
+    while True:
+        if ENG.check() != 'sat':
+            raise Abort()
+        v = ENG.model_solver.model().eval(x.e, model_completion=True)
+        k = from_model_value(_pyval(v))
+        if k != k or k in (float('inf'), float('-inf')):
+            raise ShimGap('index with a non-finite F-model integer')
+        if ENG.decide(z3.fpEQ(x.e, fpval(k))):
+            return int(k)
+        tries += 1
+        if tries > 4096:
+            raise Inconclusive('unbounded integer concretisation')
+
+
 class SymFloat:
     """R model: (is-NaN flag, real value)."""
     __slots__ = ('v', 'n')
@@ -736,33 +753,38 @@ class SymFloat:
         return r if r is NotImplemented else ~r
     __hash__ = None
 
-    def _ar(self, o, f, r=False):
+    def _ar(self, o, f, r=False, name=None):
         o2 = SymFloat.of(o)
         if o2 is None:
             return NotImplemented
-        if isinstance(o2, _Inf) or isinstance(self, _Inf):
-            raise ShimGap('arithmetic with inf in the R model')
+        if isinstance(o2, _Inf):
+            # finite (op) inf: let the infinity decide (o2 is the right operand unless r)
+            return getattr(o2, ('__%s__' if r else '__r%s__') % name)(self)
         a, b = (o2, self) if r else (self, o2)
         return SymFloat(z3.simplify(f(a.v, b.v)), z3.simplify(z3.Or(a.n, b.n)))
 
-    def __add__(self, o): return self._ar(o, lambda a, b: a + b)
-    def __radd__(self, o): return self._ar(o, lambda a, b: a + b, True)
-    def __sub__(self, o): return self._ar(o, lambda a, b: a - b)
-    def __rsub__(self, o): return self._ar(o, lambda a, b: a - b, True)
-    def __mul__(self, o): return self._ar(o, lambda a, b: a * b)
-    def __rmul__(self, o): return self._ar(o, lambda a, b: a * b, True)
+    def __add__(self, o): return self._ar(o, lambda a, b: a + b, False, 'add')
+    def __radd__(self, o): return self._ar(o, lambda a, b: a + b, True, 'add')
+    def __sub__(self, o): return self._ar(o, lambda a, b: a - b, False, 'sub')
+    def __rsub__(self, o): return self._ar(o, lambda a, b: a - b, True, 'sub')
+    def __mul__(self, o): return self._ar(o, lambda a, b: a * b, False, 'mul')
+    def __rmul__(self, o): return self._ar(o, lambda a, b: a * b, True, 'mul')
 
     def _div(self, o, r=False):
         o2 = SymFloat.of(o)
         if o2 is None:
             return NotImplemented
         a, b = (o2, self) if r else (self, o2)
-        if isinstance(b, _Inf) or isinstance(a, _Inf):
-            raise ShimGap('inf in a division (R model)')
+        if isinstance(b, _Inf):
+            return b.__rtruediv__(a)
+        if isinstance(a, _Inf):
+            return a.__truediv__(b)
         zero = SymBool(z3.And(z3.Not(b.n), b.v == 0))
         if bool(zero):
-            # numpy: x/0 = +-inf or nan (with a RuntimeWarning); outside the R model
-            raise ShimGap('division by zero reachable in the R model')
+            # numpy float semantics: x/0 = +-inf, 0/0 = nan/0 = nan (the path forks on it)
+            if bool(SymBool(z3.Or(a.n, a.v == 0))):
+                return SymFloat(z3.RealVal(0), z3.BoolVal(True))
+            return _Inf(bool(SymBool(a.v > 0)))
         return SymFloat(z3.simplify(a.v / b.v), z3.simplify(z3.Or(a.n, b.n)))
 
     def __truediv__(self, o): return self._div(o)
@@ -804,6 +826,59 @@ class _Inf(SymFloat):
     def _lcmp(self, x, f):
         r = f(1 if self.pos else -1, 0)
         return SymBool(z3.And(z3.Not(x.n), z3.BoolVal(bool(r))))
+
+    def isnan(self):
+        return SymBool(z3.BoolVal(False))
+
+    def _scaled(self, o, div=False):
+        o2 = SymFloat.of(o)
+        if o2 is None:
+            return NotImplemented
+        if isinstance(o2, _Inf):
+            if div:
+                return SymFloat(z3.RealVal(0), z3.BoolVal(True))
+            return _Inf(self.pos == o2.pos)
+        if bool(o2.isnan()) or bool(SymBool(o2.v == 0)):
+            if div and not bool(o2.isnan()):
+                return _Inf(self.pos)
+            return SymFloat(z3.RealVal(0), z3.BoolVal(True))
+        return _Inf(self.pos == bool(SymBool(o2.v > 0)))
+
+    def __mul__(self, o): return self._scaled(o)
+    __rmul__ = __mul__
+    def __truediv__(self, o): return self._scaled(o, True)
+
+    def __rtruediv__(self, o):
+        o2 = SymFloat.of(o)
+        if o2 is None:
+            return NotImplemented
+        if isinstance(o2, _Inf):
+            return SymFloat(z3.RealVal(0), z3.BoolVal(True))
+        return SymFloat(z3.RealVal(0), o2.n)
+
+    def _shift(self, o, sign=1):
+        o2 = SymFloat.of(o)
+        if o2 is None:
+            return NotImplemented
+        if isinstance(o2, _Inf):
+            if (o2.pos == self.pos) == (sign > 0):
+                return _Inf(self.pos)
+            return SymFloat(z3.RealVal(0), z3.BoolVal(True))
+        if bool(o2.isnan()):
+            return SymFloat(z3.RealVal(0), z3.BoolVal(True))
+        return _Inf(self.pos)
+
+    def __add__(self, o): return self._shift(o)
+    __radd__ = __add__
+    def __sub__(self, o): return self._shift(o, -1)
+
+    def __rsub__(self, o):
+        r = self._shift(o, -1)
+        return _Inf(not r.pos) if isinstance(r, _Inf) else r
+
+    def __neg__(self): return _Inf(not self.pos)
+    def __abs__(self): return _Inf(True)
+    def __bool__(self): return True
 
 
 def fpval(o):
@@ -895,7 +970,13 @@ class SymFPInt(SymFP):
     def __repr__(self): return '<SymFPInt>'
 
     def __index__(self):
-        raise ShimGap('index with an F-model integer')
+        return concretize_fpint(self)
+
+    def __int__(self):
+        return concretize_fpint(self)
+
+    def __neg__(self):
+        return SymFPInt(z3.fpNeg(self.e))
 
 
 def is_sym(x):
@@ -1028,7 +1109,16 @@ def count_true(xs):
 
 
 def same_float(a, b):
-    """a and b are the same float value, NaN equal to NaN."""
+    """a and b are the same float value, NaN equal to NaN. On concrete values (real-world replays)
+    the comparison tolerates 1e-9 relative: replays run in binary64, the R-model claims are over the reals."""
+    if not is_sym(a) and not is_sym(b):
+        try:
+            a, b = float(a), float(b)
+        except (TypeError, ValueError):
+            return False
+        if a != a or b != b:
+            return a != a and b != b
+        return math.isclose(a, b, rel_tol=1e-9, abs_tol=1e-9)
     na, nb = isnan(a), isnan(b)
     if na is False and nb is False:
         return a == b
